@@ -2,7 +2,7 @@
    by lockstep) and the regenerated slot arithmetic of _wait_for_free_slots /
    _submit_function_to_separate_process (Gen.SharedRes); block allocation: Model/Exec.v. *)
 From Coq Require Import ZArith List Bool Arith.
-From EL Require Import Base.PyLib Model.Exec Model.ExecInv Model.StepExec Proofs.ExecSafe Proofs.StepSafe Proofs.C10Proofs Gen.SharedRes.
+From EL Require Import Base.PyLib Model.Exec Model.ExecInv Model.StepExec Proofs.ExecSafe Proofs.StepSafe Proofs.DictFacts Proofs.C10Proofs Gen.SharedRes Gen.StepCtor.
 From EL Require Import Model.LiveSpec Proofs.StepLive Proofs.StepLiveCor.
 Import ListNotations.
 
@@ -52,6 +52,18 @@ Theorem C07_guard_workers :
     wait_guard_workers (VDict act) (VInt m) = Ok (VBool (Z.gtb (Z.of_nat (List.length act) + 1) m)).
 Proof. exact guard_workers. Qed.
 Print Assumptions C07_guard_workers.
+
+(* the limits the dispatcher thread is started with (InteractiveStepExecutor.__init__, regenerated from
+   the source): whatever the executor_kwargs dictionary held before - e.g. a "max_cores" entry left
+   by an earlier executor built from the same user dictionary - the dispatcher receives exactly the
+   constructor's max_cores and max_workers *)
+Theorem C07_dispatcher_gets_the_given_limits :
+  forall q self mc mw ek sp,
+    exists d, Gen.StepCtor.step_ctor q self mc mw (DictFacts.sdict ek) sp = Ok (DictFacts.sdict d)
+              /\ DictFacts.assoc C10Proofs.k_max_cores d = Some mc /\ DictFacts.assoc C10Proofs.k_max_workers d = Some mw.
+Proof. exact step_ctor_hands_over_the_given_limits. Qed.
+Print Assumptions C07_dispatcher_gets_the_given_limits.
+
 
 (* ---- progress (Proofs/StepLive.v): the ceiling never starves a request that fits ---- *)
 (* a request that fits the limit never leaves the dispatcher in a wait loop with nothing to wait
